@@ -328,7 +328,8 @@ class Check:
                 path = os.path.join(rdir, "%s_%s_%d.json" % (self.prop, self.tier, i))
                 with open(path, "w") as fo:
                     json.dump({"property": self.prop, "mode": v.get("mode"), "part": v.get("part"), "tag": v.get("tag", "CASE"),
-                               "what": v.get("what"), "site": v.get("site"), "detail": v.get("detail"), "case": v.get("case")}, fo)
+                               "what": v.get("what"), "site": v.get("site"), "detail": v.get("detail"), "case": v.get("case"),
+                               "replay": v.get("replay")}, fo)
                     fo.write("\n")
                 if replay is None:
                     replay = path
